@@ -89,11 +89,29 @@ static const embedded_pairing_wkdibe_attributelist_t* LP(AList& a) { return a.is
 #define SLACK 40
 #endif
 
+// A fresh output key object starts DIRTY: its previous content (valid-looking points of some other key, a wrong slot count, the
+// opposite signature flag - or plain junk bytes) must have no influence on what the library writes into it.
+static unsigned g_dirty;
 static void alloc_b(int kid, int n) {
     free(K[kid].k.b);
     K[kid].k.b = (n + SLACK) > 0 ? (embedded_pairing_wkdibe_freeslot_t*) malloc(sizeof(embedded_pairing_wkdibe_freeslot_t) * (size_t) (n + SLACK)) : NULL;
     K[kid].alloc = n;
     K[kid].used = true;
+    embedded_pairing_wkdibe_freeslot_t* b = K[kid].k.b;
+    g_dirty++;
+    if (g_dirty % 3 == 0) {
+        memset(&K[kid].k, 0xA5, sizeof K[kid].k);
+        if (b) memset(b, 0xA5, sizeof(embedded_pairing_wkdibe_freeslot_t) * (size_t) (n + SLACK));
+    } else {
+        G1 j1; G2 j2; BigInt<256> k; memset(&k, 0, sizeof k); k.std_words[0] = 0x1234567 + g_dirty;
+        j1.multiply_doubleadd(G1::one, k); j2.multiply_doubleadd(G2::one, k);
+        wk::SecretKey& d = *reinterpret_cast<wk::SecretKey*>(&K[kid].k);
+        d.a0.copy(j1); d.a1.copy(j2); d.bsig.copy(j1);
+        d.l = (g_dirty % 3 == 1) ? n + 3 : 0;
+        d.signatures = (g_dirty & 1) != 0;
+        for (int i = 0; i < n + SLACK; i++) { b[i].idx = (uint32_t) (i * 2 + 1); memcpy(&b[i].hexp, &j1, sizeof j1); }
+    }
+    K[kid].k.b = b;
 }
 
 // ------------------------------------------------------------------ monitor helpers (library arithmetic as instrument)
